@@ -60,6 +60,127 @@ var (
 	knobs = map[string]int{}
 )
 
+// ---- environment seam ------------------------------------------------------
+//
+// The instrumenter redirects the library's reads of the wall clock, of the CPU
+// count and of the global pseudo-random source to the functions below, so
+// that all three are decided by the scenario (none exists on today's tree).
+
+const clockEpoch = 1767225600 // 2026-01-01T00:00:00Z: where a process's simulated clock starts
+
+var (
+	clockNs       int64  // nanoseconds since clockEpoch; never decreases
+	clockPerYield int64  // nanoseconds the clock advances at every yield step
+	randState     uint64 // splitmix64 state of the simulated global random source
+	envReads      uint64 // calls of the functions below (reach measure)
+)
+
+// AdvanceClock moves the simulated wall clock forward by jump nanoseconds
+// (never back) and sets the rate at which it advances per yield step.
+//
+//go:norace
+func AdvanceClock(jump, perYield int64) {
+	if jump > 0 {
+		clockNs += jump
+	}
+	if perYield < 0 {
+		perYield = 0
+	}
+	clockPerYield = perYield
+}
+
+// SeedRand sets the state of the simulated global random source.
+//
+//go:norace
+func SeedRand(seed uint64) { randState = seed }
+
+// EnvReads is the number of environment reads the code under test has made.
+//
+//go:norace
+func EnvReads() uint64 { return envReads }
+
+//go:norace
+func clockRead() int64 { envReads++; return clockNs }
+
+// Now replaces time.Now: the simulated wall clock (no monotonic reading).
+func Now() time.Time { return time.Unix(clockEpoch, clockRead()).UTC() }
+
+// Since replaces time.Since.
+func Since(t time.Time) time.Duration { return Now().Sub(t) }
+
+// Until replaces time.Until.
+func Until(t time.Time) time.Duration { return t.Sub(Now()) }
+
+// Sleep replaces time.Sleep: simulated time passes, the caller yields.
+//
+//go:norace
+func Sleep(d time.Duration) {
+	envReads++
+	if d > 0 {
+		clockNs += int64(d)
+	}
+	Yield(1<<20 + 10)
+}
+
+// NumCPU replaces runtime.NumCPU: knob "cpus", else the real value.
+func NumCPU() int { return cpus(runtime.NumCPU()) }
+
+// GOMAXPROCS replaces runtime.GOMAXPROCS: a query (n < 1) answers with knob
+// "cpus"; a request to change the setting is passed on.
+func GOMAXPROCS(n int) int {
+	if n >= 1 {
+		return runtime.GOMAXPROCS(n)
+	}
+	return cpus(runtime.GOMAXPROCS(0))
+}
+
+//go:norace
+func cpus(real int) int {
+	envReads++
+	if v, ok := knobs["cpus"]; ok && v > 0 {
+		return v
+	}
+	return real
+}
+
+//go:norace
+func randNext() uint64 {
+	envReads++
+	randState += 0x9e3779b97f4a7c15
+	z := randState
+	z = (z ^ (z >> 30)) * 0xbf58476d1ce4e5b9
+	z = (z ^ (z >> 27)) * 0x94d049bb133111eb
+	return z ^ (z >> 31)
+}
+
+func RandUint64() uint64   { return randNext() }
+func RandUint32() uint32   { return uint32(randNext() >> 32) }
+func RandInt63() int64     { return int64(randNext() >> 1) }
+func RandInt31() int32     { return int32(randNext() >> 33) }
+func RandInt() int         { return int(uint(randNext()) >> 1) }
+func RandFloat64() float64 { return float64(randNext()>>11) / (1 << 53) }
+func RandFloat32() float32 { return float32(randNext()>>40) / (1 << 24) }
+func RandIntn(n int) int {
+	if n <= 0 {
+		panic("invalid argument to Intn")
+	}
+	return int(randNext() % uint64(n))
+}
+func RandInt31n(n int32) int32 {
+	if n <= 0 {
+		panic("invalid argument to Int31n")
+	}
+	return int32(randNext() % uint64(n))
+}
+func RandInt63n(n int64) int64 {
+	if n <= 0 {
+		panic("invalid argument to Int63n")
+	}
+	return int64(randNext() % uint64(n))
+}
+func RandUintn(n uint) uint       { return uint(randNext() % uint64(n)) }
+func RandUint64n(n uint64) uint64 { return randNext() % n }
+
 // Knob returns the configured value of a tuning knob, or def.
 func Knob(name string, def int) int {
 	if v, ok := knobs[name]; ok {
@@ -127,6 +248,7 @@ func SiteHits() []uint32 { return siteHits }
 //go:norace
 func Yield(site uint32) {
 	steps++
+	clockNs += clockPerYield
 	if budget != 0 && steps > budget {
 		b := steps
 		budget = 0
@@ -160,6 +282,15 @@ func Yield(site uint32) {
 		}
 	}
 	if quantum[t] > 0 && !hit {
+		return
+	}
+	if id := tgoid[t]; id != 0 && curGoid() != id {
+		// this yield was executed by a goroutine that is not the running task
+		// (a finalizer, a timer function, a helper the instrumenter did not see
+		// being started): parking it under the task's name would wedge the
+		// hand-off.  Same consequence as Foreign: nobody is parked any more.
+		foreign = true
+		foreignRuns++
 		return
 	}
 	park(t)
